@@ -13,6 +13,7 @@ TEXT = {
  "C01": ("Bounded model checking of the compiled crate (Kani/CBMC): inductive step harnesses. From EVERY state satisfying the representation invariant (INV: slot map, ready queue incl. stale and in-flight entries, registration, ghost 'needs a poll' relation) one poll / push / child-waker call is executed with symbolic child answers, symbolic task waker (A or B) and a racing wake injected at any WakerList operation boundary; obligations: INV again, a Pending return leaves no queued held child un-polled unless the task waker OF THAT POLL was invoked, a wake while the task sleeps notifies the most recently registered waker. History length is unbounded by induction; capacity (<=3), groups (<=2), racing events (<=1 per call) are bounded.",
          "Claimed for operation-granular interleavings only: wakes of other threads are atomic events (plus the two halves of cordyceps' enqueue) at WakerList operation boundaries of a sequential reference model of waker_list.rs; interleavings inside cordyceps / diatomic-waker / spin and weak-memory reorderings are NOT covered. Budget 61 covered by fub_poll_budget (capacity 1)."),
  "C02": ("Step harnesses: from every INV state one poll_next / try_push / waker call; obligations: a yielded item is the output of a held future that completed in this call, its slot and only its slot is vacated, the held count changes by exactly one, Ready(None) iff nothing is held, never Pending when empty, INV (free list = simple path over exactly the vacant slots, rem = sum over groups, ordered: queue places are a bijection) re-established. Covers FuturesUnorderedBounded, FuturesUnordered (group removal/rotation/creation), FuturesOrderedBounded.", "capacities <= 3, groups (1,2); FuturesOrdered (unbounded ordered) only in the thorough tier / via its shared code paths"),
+ "C03": ("SEQUENTIAL part only. The REAL waker_list.rs with the real cordyceps / diatomic-waker / spin is model-checked with Kani's memory-safety checks ON (pointer validity, use of a deallocated object, double free, out-of-bounds) in fixed-order lifecycle shapes: new(cap), register, push(i), pop, clone of the slot's waker (slot index symbolic, so every slot offset inside the block up to the capacity bound), then the collection and the clone die in each of three orders with a wake (by ref / by value) in between; cfg-guarded probes in new()/drop_inner() show the block is allocated once and released exactly once, only when the last owner (collection handle or waker) is gone; a wake after the collection is gone only wakes the last registered task. A FIFO/coalescing/registration shape shows the real list answers as the reference model assumes.", "NOT covered (cannot be encoded with the installed tools: Kani is sequential): data races, cross-thread interleavings, adequacy of the Relaxed/Release/Acquire orderings of the reference count. Capacities 1-3; cordyceps built with its `no-cache-pad` feature (layout only); CAS / spin loops unwound once with unwinding assertions (they cannot fail sequentially)."),
  "C04": ("Step harnesses on FuturesOrderedBounded with next_outgoing_index an arbitrary 64-bit word: every yield is the element at queue place 0, every other element keeps its place (relative to the new front), push_back/push_front place the future behind/ahead of everything, also across wrap-around and the re-basing block; buffered_ordered yields in upstream order; join_all/try_join_all put output i at index i.", "capacity 2, <=2 parked outputs; heap loops unwound 3-4"),
  "C05": ("Scripted children assert on themselves that they are never polled after completion (also via stale wakers and after slot reuse) and ghost-check that a finished future / ended source is dropped before the call that observed its completion returns; checked in every step harness of the bounded collection, the merge and join_all.", "capacities <= 3"),
  "C06": ("Drop-counting scripted futures, streams and output tokens: Step(drop) of the collection from every INV state with wakers outliving it; join_all/try_join_all: one poll then drop of the pending combinator or of the result, error path of try_join_all.", "2 inputs / capacity 2"),
@@ -26,6 +27,7 @@ TEXT = {
  "C14": ("Quiet-environment step: no self-wake, no racing wake, queue within budget => the call returns without invoking the task waker and leaves the queue empty; every step: the task waker is invoked only inside a child-waker call on the not-queued->queued transition (wake of a queued slot, clone, drop, push, drop of the collection never invoke it).", "capacity 2"),
  "C15": ("Constructors for every n in 0..=2 (a panic in the crate is a violation); try_push* from every INV state: accepted iff not full, refused push returns the very same future and leaves slot map, queue and position counters untouched; len/is_empty/size_hint/capacity against the ghost count after every step; FuturesUnordered accepts every push.", "capacities <= 2"),
  "C16": ("buffered_ordered / try_buffered_ordered step from every pre-state with <= n items pulled-and-not-yielded (running + parked, head of line possibly stalled): after one poll still <= n.", "n = 2"),
+ "C18": ("Allocation counting: under Kani `alloc::alloc::alloc` and `alloc::alloc::realloc_nonnull` are stubbed by counting versions (natively the replayer installs a counting global allocator); every step harness of the bounded types (FuturesUnorderedBounded poll/push/waker clone-wake-drop, MergeBounded, buffered_unordered, try_buffered_unordered, for_each_concurrent, join_all / try_join_all incl. handing out the Vec) asserts ZERO allocator calls during the operation, from every INV state. FuturesUnordered: a poll never allocates; a push allocates only when the last group is full, then at most 3 times (slots, waker list, group list growth) for a group of twice the capacity; the largest group is never discarded => (arithmetic) the number of groups ever created is <= 2 + log2(peak/first capacity), independent of the number of futures processed.", "capacities (1,2) stand in for (32,64); the reference model reports one block per waker list as the real list allocates; growth of Vec<group> and of the ordered heap is counted as amortised doubling by std's documented behaviour; FuturesOrdered/MergeUnbounded share the FuturesUnordered group logic (MergeUnbounded poll checked directly)"),
  "C17": ("size_hint before and after every step of the collections and adapters against the ghost number of items still to be yielded (in flight + parked + honest upstream remainder).", "n = 2; upstream remainder <= 2"),
 }
 
@@ -45,12 +47,11 @@ for p in claimed:
         "engine": "kani-cbmc",
         "level_claimed": {"category": "model_checking", "text": TEXT[p][0], "design_ref": DESIGN_REF[p]},
         "level_note": TEXT[p][1] + " Trusted base: Kani 0.68 / CBMC 6.11 / CaDiCaL, the Waker stubs, the waker_list reference model (Layer U), the invariant INV being inductive (re-established by every step harness).",
-        "technique": "bounded model checking (Kani -> CBMC, SAT) of inductive step harnesses over the compiled crate; counterexamples replayed natively",
+        "technique": ("bounded model checking (Kani -> CBMC, SAT) of the real waker_list.rs with memory-safety checks, fixed-order lifecycle shapes" if p == "C03" else
+                      "bounded model checking (Kani -> CBMC, SAT) of inductive step harnesses over the compiled crate; counterexamples replayed natively"),
     })
 
 NA = {
- "C03": "memory safety of the real waker_list.rs (Layer W shape harnesses on the real list) is under construction; the reference model used by the other checks says nothing about it, and cross-thread data races / memory orderings cannot be encoded with the installed tools (Kani is sequential)",
- "C18": "allocation-counting harnesses (stubbed global allocator) under construction",
 }
 m = {
  "version": 1,
